@@ -98,7 +98,20 @@ def _prim(ctx, lib, sty, bodies, width):
     ret = pnorm(FnView(lib, rb).root.ret())
     n = V("n")
     env = {}
-    pat = ("tuple", (C(endswith("::from_le_bytes"), E(Par(1), ("agg", "core::ops::RangeTo", "RangeTo", (("end", n),)))),
+    head = E(Par(1), ("agg", "core::ops::RangeTo", "RangeTo", (("end", n),)))
+
+    def head_bytes(t, env):
+        # src[..N] converted to an array (try_into().unwrap() is value preserving), or a zeroed [u8; N] buffer completely
+        # overwritten by copy_from_slice(&src[..N]) (equal lengths, or it panics like the range index does)
+        if m(head, t, env):
+            return True
+        if t[0] == "phi":
+            ms = [x for x in t[1] if x[0] != "loop"]
+            fills = [x for x in ms if x[0] == "mutby" and str(x[1]).split("@")[0].endswith("::copy_from_slice") and len(x[2]) == 2]
+            inits = [x for x in ms if x[0] in ("repeat", "array")]
+            return len(ms) == 2 and len(fills) == 1 and len(inits) == 1 and m(head, fills[0][2][1], env)
+        return False
+    pat = ("tuple", (C(endswith("::from_le_bytes"), head_bytes),
                      E(Par(1), ("agg", "core::ops::RangeFrom", "RangeFrom", (("start", n),)))))
     okr = m(pat, ret, env)
     RS = Sites(lib, rb)
@@ -181,8 +194,8 @@ def _mk(ctx, lib, sty, bodies):
         return
     # the two conversion tables, by constant folding each function on every abstract input (3 variants / 256 bytes):
     # independent of the source form (match, if-chain, `as u8` on the repr(u8) enum, lookup by comparison)
-    enc = {name: cond.fold_fn(to_u8, ("variant", name, d)) for name, d in variants.items()}
-    dec = {byte: cond.fold_fn(from_u8, byte) for byte in range(256)}
+    enc = {name: cond.fold_fn(to_u8, ("variant", name, d), lib=lib) for name, d in variants.items()}
+    dec = {byte: cond.fold_fn(from_u8, byte, lib=lib) for byte in range(256)}
     if any(not isinstance(x, int) for x in enc.values()) or any(not (isinstance(x, tuple) and x[0] == "variant") for x in dec.values()):
         ctx.bad("SER-MK", to_u8, "tables", to_u8.span, "could not extract the MatchKind conversion tables (to_u8 %s)" % enc)
         return
@@ -206,11 +219,19 @@ def _mk(ctx, lib, sty, bodies):
         ok = len(w8) == 1 and len(S.calls) == 2 and m(Par(1), froms[0]["args"][0]) and m(Par(1), w8[0]["args"][0]) and m(Par(2), w8[0]["args"][1])
     ctx.check(ok, "SER-MK", wb, "writer-one-byte", wb.span, "writer must push exactly u8::from(*self)")
     RS = Sites(lib, rb)
+    def same_decoder(c):
+        # a crate-local byte -> MatchKind function with the same table as From<u8> (e.g. the helper From<u8> forwards to)
+        cb = lib.bodies.get(c.body_path) if c.body_path else None
+        if cb is None or cb.arg_count != 1:
+            return False
+        return all(cond.fold_fn(cb, byte, lib=lib) == dec[byte] for byte in range(256))
     froms = [s for s in RS.calls if s["c"].body_path == from_u8.path or
-             (core.callee_base(s["key"]) == "core::convert::Into::into" and s["c"].targ_s(0) == "u8" and s["c"].targ_s(1) == "MatchKind")]
+             (core.callee_base(s["key"]) == "core::convert::Into::into" and s["c"].targ_s(0) == "u8" and s["c"].targ_s(1) == "MatchKind") or
+             (s["c"].local and s["c"].adt == "MatchKind" and same_decoder(s["c"]))]
     ret = pnorm(FnView(lib, rb).root.ret())
     okr = len(froms) == 1 and m(E(Par(1), K(0)), froms[0]["args"][0]) and \
-        m(("tuple", (E(Par(1), K(0)), E(Par(1), ("agg", "core::ops::RangeFrom", "RangeFrom", (("start", K(1)),))))), ret)
+        m(("tuple", (OneOf(E(Par(1), K(0)), C(anykey, E(Par(1), K(0)), site=(rb.path, froms[0]["bb"]))),
+                     E(Par(1), ("agg", "core::ops::RangeFrom", "RangeFrom", (("start", K(1)),))))), ret)
     if not okr and len(froms) == 1:
         r8 = [s for s in RS.calls if s["name"] == R_ and self_ty(s["c"]) == "u8"]
         if len(r8) == 1 and m(Par(1), r8[0]["args"][0]):
